@@ -3,6 +3,7 @@ import AuthModel.Wire
 import AuthModel.Store.Memory
 import AuthModel.Store.Redis
 import AuthModel.Oidc.Run
+import AuthModel.Oidc.Sched
 open AuthModel AuthModel.Wire
 
 def parseMatch (t : Tok) : Option StringMatch :=
@@ -60,6 +61,7 @@ structure DState where
                  idPreamble := [], access := none, logout := none }
   tokTbl : List (Str × Option TokAttrs × Bool) := []
   s256Tbl : List (Str × Str) := []
+  threads : List (Nat × Thread) := []
 
 def DState.parses (d : DState) : Str → Bool := fun s =>
   match d.parseTbl.find? (·.1 == s) with
@@ -206,6 +208,29 @@ def handleReq (d : DState) (toks : List Tok) : DState × String :=
     | _, _, _, _, _, _, _, _, _ => (d, "bad-op")
   | _ => (d, "bad-op")
 
+def showStep (acts : List (Act × ARes)) (t : Thread) : String :=
+  showTrace (acts.map (·.1)) ++ (match t.answer with | some r => " => " ++ showResp r | none => "")
+
+def handleSpawn (d : DState) (toks : List Tok) : DState × String :=
+  match toks with
+  | tid :: uri :: [http, scheme, host, path, query, cookie, gen, idp, keys, faults] =>
+    match natOf tid, boolOf http, unhex scheme, unhex host, unhex path, unhex query, unhex cookie, parseStrList gen, parseIdp idp, boolOf keys with
+    | some tid, some http, some scheme, some host, some path, some query, some cookie, some [g1, g2, g3, g4], some idp, some keys =>
+      let req : Req := { http := http, scheme := scheme, host := host, path := path, query := query, cookie := cookie }
+      let sc : Script := { gen := (g1, g2, g3, g4), idp := idp, keysOk := keys, faults := parseFaults faults }
+      let cfg := match unhex uri with | some u => { d.cfg with tokenUri := u } | none => d.cfg
+      let (t, acts) := Thread.spawn d.now sc (Oidc.process cfg d.oracles req)
+      ({ d with threads := (tid, t) :: d.threads.filter (·.1 != tid) }, showStep acts t)
+    | _, _, _, _, _, _, _, _, _, _ => (d, "bad-op")
+  | _ => (d, "bad-op")
+
+def handleStep (d : DState) (tid : Nat) : DState × String :=
+  match d.threads.find? (·.1 == tid) with
+  | none => (d, "no-thread")
+  | some (_, t) =>
+    let (w', t', acts) := t.step d.store d.now
+    ({ d with st := w', threads := (tid, t') :: d.threads.filter (·.1 != tid) }, showStep acts t')
+
 def handle (d : DState) (toks : List Tok) : DState × String :=
   match toks with
   | [['t','r','i','g'], target, rules, re] =>
@@ -226,7 +251,7 @@ def handle (d : DState) (toks : List Tok) : DState × String :=
     match intOf abs, intOf idle, intOf now with
     | some a, some i, some n =>
       ({ d with st := { kind := if kind = "mem".toList then 0 else 1, mem := MemStore.empty a i, abs := a, idle := i },
-                now := n, parseTbl := [], tokTbl := [], s256Tbl := [] }, "ok")
+                now := n, parseTbl := [], tokTbl := [], s256Tbl := [], threads := [] }, "ok")
     | _, _, _ => (d, "bad-op")
   | [['o','r','a','c','l','e'], ['p','a','r','s','e'], s, b] =>
     match unhex s, boolOf b with
@@ -246,6 +271,11 @@ def handle (d : DState) (toks : List Tok) : DState × String :=
     | some c => ({ d with cfg := c }, "ok")
     | none => (d, "bad-op")
   | ['r','e','q'] :: rest => handleReq d rest
+  | ['s','p','a','w','n'] :: rest => handleSpawn d rest
+  | [['s','t','e','p'], tid] =>
+    match natOf tid with
+    | some tid => handleStep d tid
+    | none => (d, "bad-op")
   | [['t','i','c','k'], n] =>
     match intOf n with
     | some n => ({ d with now := d.now + n }, "ok")
